@@ -136,6 +136,8 @@ type ConnSpec struct {
 	ServerCloseAfter int
 	// ServerStall: the server stops reading for this long right after its handshake (slow node).
 	ServerStall time.Duration
+	// Out, if set, receives the outcome pointer before the tasks start (for hooks that need it).
+	Out **ConnOutcome
 	// ServerKeyUpdate (reference server, TLS 1.3): asked before the n-th echo write; send => the
 	// server sends a KeyUpdate first, request => with update_requested.
 	ServerKeyUpdate func(n int) (send, request bool)
@@ -163,6 +165,7 @@ type ConnOutcome struct {
 	CPanic   any
 	SPanic   any
 	RefConn  *refsrv.Conn
+	UServer  *tls.Conn // the repository server's connection (PeerUTLS)
 	KeyUpdates int // KeyUpdate messages the reference server sent
 }
 
@@ -231,6 +234,7 @@ func defaultServer(o *ConnOutcome, conn net.Conn) {
 		}
 	} else {
 		sc := tls.Server(conn, sp.SCfg)
+		o.UServer = sc
 		o.SErr = sc.Handshake()
 		if o.SErr != nil {
 			conn.Close()
@@ -351,6 +355,9 @@ func RunConn(c *Ctx, w *simrt.World, sp *ConnSpec) *ConnOutcome {
 		sp.Name = "c"
 	}
 	o := &ConnOutcome{Spec: sp}
+	if sp.Out != nil {
+		*sp.Out = o
+	}
 	l := simnet.NewLink(sp.Name)
 	o.Link = l
 	if sp.Setup != nil {
